@@ -19,6 +19,7 @@ RULE = (
     "every rendered field is judged (inside <=> value beyond the midpoint) except cells within 1e-9 of the interface or, for direction-"
     "dependent shapes, within 1e-9 of half a period from the centre (ambiguous direction); roll and sum clauses on all periodic "
     "shifts of a menu and all permutations of <= 3 droplets; non-trivial = droplet covers at least one cell and leaves one uncovered"
+    " plus extreme widths (1e-3 and 1e3 cells), amplitudes on the bounds, centres one and three periods outside; histories (fresh fork): ordered pairs of grids differing in one attribute and four renderings on one shared grid object"
 )
 ASSUMPTIONS = [
     "parameters restricted to the declared lattices; perturbed shapes on polar/spherical grids are only checked for finiteness/range "
